@@ -19,6 +19,10 @@ type ConnPlan struct {
 	LimitMode string `json:"limit_mode,omitempty"`
 	Garbage   []byte `json:"garbage,omitempty"`
 	HoldReq   bool   `json:"hold_req,omitempty"` // serve: the last request's response is held by the backend until released
+	// LastStream (HTTP/2 only): how the last stream of the connection ends - "" (normal), "client-rst"
+	// (request cancelled by RST_STREAM), "early-response" (POST /early/.. answered before its body ended:
+	// the server resets the stream with NO_ERROR), "malformed" (header block the server answers with RST_STREAM)
+	LastStream string `json:"last_stream,omitempty"`
 }
 
 // ClientRun is the observable state of a running plan.
@@ -135,6 +139,21 @@ func (r *ClientRun) run(tag string) {
 			r.mu.Unlock()
 			if ex.Err != "" {
 				break
+			}
+		}
+		if cc.H2 != nil && r.Plan.LastStream != "" {
+			sid := cc.nextID
+			cc.nextID += 2
+			switch r.Plan.LastStream {
+			case "client-rst":
+				cc.H2.WriteRequestHeaders(sid, [][2]string{{":method", "POST"}, {":scheme", "https"}, {":authority", "example.com"}, {":path", "/" + tag + "/rst"}}, false, nil, nil)
+				cc.H2.Fr.WriteRSTStream(sid, 8)
+			case "early-response":
+				cc.H2.WriteRequestHeaders(sid, [][2]string{{":method", "POST"}, {":scheme", "https"}, {":authority", "example.com"}, {":path", "/early/" + tag}, {"content-length", "1000"}}, false, nil, nil)
+				cc.H2.AwaitResponse(sid, r.finish)
+			case "malformed":
+				cc.H2.WriteRequestHeaders(sid, [][2]string{{":method", "GET"}, {":scheme", "https"}, {":authority", "example.com"}, {":path", "/" + tag + "/bad"}, {"Upper-Case", "x"}}, true, nil, nil)
+				cc.H2.AwaitResponse(sid, r.finish)
 			}
 		}
 		<-r.finish
